@@ -49,6 +49,12 @@ ValsDbl == ValsDblExp \cup ValsDblAct
 ValsDblSmall == { Dbl(1024, tol) : tol \in {XFin(0), XFin(0 - 1)} } \cup { Dbl(q, XFin(DefaultTolQ)) : q \in {1024, 1025, 1030} }
 NoKeys == {}
 Keys2 == {"k", "cfg"}
+\* object identities: none; live objects; live objects and the null pointer
+NoObjs == {}
+Objs1 == {1}
+Objs12 == {1, 2}
+ObjsN1 == {NullObj, 1}
+ObjsN12 == {NullObj, 1, 2}
 ScopesG == {""}
 ScopesGST == {"", "s", "t"}
 ScopesGS == {"", "s"}
